@@ -345,6 +345,50 @@ pub fn run(ctx: &Ctx) -> Rep {
             );
         }
     }
+    // Ord::clamp on the two enumerations: every triple of distinct members (x clamped into [lo, hi], lo <= hi)
+    {
+        let mut members_n: Vec<HandRankName> = names.clone();
+        members_n.sort();
+        members_n.dedup();
+        let mut members_c: Vec<HandRankClass> = classes.clone();
+        members_c.sort();
+        members_c.dedup();
+        let mut triples = 0u64;
+        fn clamp_ok<T: Ord + Copy>(x: T, lo: T, hi: T) -> bool {
+            let want = if x.cmp(&hi) == Ordering::Greater {
+                hi
+            } else if x.cmp(&lo) == Ordering::Less {
+                lo
+            } else {
+                x
+            };
+            x.clamp(lo, hi).cmp(&want) == Ordering::Equal
+        }
+        let cstep = if ctx.smoke() { 17 } else { 1 };
+        for (li, &lo) in members_n.iter().enumerate() {
+            for &hi in &members_n[li..] {
+                for &x in &members_n {
+                    triples += 1;
+                    if !clamp_ok(x, lo, hi) {
+                        rep.violation("clamp agrees with cmp (Ord contract) on the enumerations", "HandRankName::clamp", Input::Ops(vec![format!("{:?}.clamp({:?}, {:?})", x, lo, hi)]), "what cmp dictates".into(), format!("{:?}", x.clamp(lo, hi)));
+                    }
+                }
+            }
+        }
+        for (li, &lo) in members_c.iter().enumerate().step_by(cstep) {
+            for &hi in members_c[li..].iter().step_by(cstep) {
+                for &x in &members_c {
+                    triples += 1;
+                    if !clamp_ok(x, lo, hi) {
+                        rep.violation("clamp agrees with cmp (Ord contract) on the enumerations", "HandRankClass::clamp", Input::Ops(vec![format!("{:?}.clamp({:?}, {:?})", x, lo, hi)]), "what cmp dictates".into(), format!("{:?}", x.clamp(lo, hi)));
+                    }
+                }
+            }
+        }
+        rep.evaluations += triples;
+        rep.add("enumeration_clamp_triples", triples);
+        rep.add("enumeration_members(HandRankName, HandRankClass)", (members_n.len() * 1000 + members_c.len()) as u64);
+    }
     rep.evaluations += enum_pairs * 2;
     rep.add("enumeration_value_pairs", enum_pairs);
     if !ctx.smoke() {
